@@ -67,7 +67,11 @@ func NewRun(p *Prog, property, tier string) *Run {
 		return p.expandBoolFact(info, call, val)
 	}
 
-	return &Run{P: p, Property: property, Tier: tier, Assume: map[string]bool{}, Extra: map[string]interface{}{}, seen: map[string]bool{}}
+	run := &Run{P: p, Property: property, Tier: tier, Assume: map[string]bool{}, Extra: map[string]interface{}{}, seen: map[string]bool{}}
+	if len(p.Renamed) > 0 {
+		run.Extra["canonicalised_renames"] = p.Renamed
+	}
+	return run
 }
 
 func (r *Run) add(st Status, key string, pos token.Pos, msg string, trace []string) {
